@@ -289,7 +289,14 @@ def call_extern(I, ref, args, kwargs, fr):
     if name == 'binascii.unhexlify':
         v = args[0]
         if isinstance(v, VConst) and v.kind == 'hexstr_tail':
-            return v.py
+            # hex(x)[4:] of a number whose hex form starts with '0x80' (the callers or 0x80 << n into x): an odd
+            # number of remaining hex digits is binascii.Error, else the octets hex80_bytes(x)
+            x = I.as_int(v.py)
+            r = I.call_spec('hex80_bytes', VInt(x))
+            ok = I.call_spec('hex80_even', VInt(x))
+            if not fr.spec and not I.path.branch(ok.t, 'unhexlify'):
+                raise PyRaise(I.builtin_exc('binascii.Error', VStr('Odd-length string')))
+            return VSeq(r.t, 'bytes')
         raise OutOfSubset('unhexlify(%r)' % (v,))
     if name in BuiltinClass.HIER:
         return VObj(BuiltinClass(name), {'args': VTuple(args)})
@@ -440,6 +447,9 @@ def call_method(I, recv, name, args, kwargs, fr):
         if z3.is_false(signed):
             return I.call_spec('be_val', VSeq(v.t, v.kind))
         raise OutOfSubset('int.from_bytes with symbolic signedness')
+    if isinstance(recv, VConst) and recv.kind in ('hexstr', 'hexstr_tail') and name == 'rstrip' and args and \
+            isinstance(args[0], VStr) and z3.is_string_value(args[0].t) and args[0].t.as_string() == 'L':
+        return recv          # python-3 hex() never ends in 'L'
     if isinstance(recv, VConst) and recv.kind in ('hexstr', 'binstr'):
         raise OutOfSubset('method on hex()/bin() string')
     if isinstance(recv, VAbsList):
